@@ -533,7 +533,7 @@ fn run_one<T: VE>(d: &J) {
 
 pub fn run_case(scn: &J) {
     let d = &scn["d"];
-    ev!("\"ev\":\"case_start\",\"case\":{},\"prop\":{},\"ety\":\"plain\"", crate::events::jstr(scn["case"].as_str().unwrap_or("")), crate::events::jstr(scn["prop"].as_str().unwrap_or("")));
+    ev!("\"ev\":\"case_start\",\"case\":{},\"prop\":{},\"ety\":\"plain\",\"rec\":false", crate::events::jstr(scn["case"].as_str().unwrap_or("")), crate::events::jstr(scn["prop"].as_str().unwrap_or("")));
     crate::events::flush();
     match d["ety"].as_str().unwrap_or("u64") {
         "unit" => run_one::<()>(d),
